@@ -37,7 +37,20 @@ func main() {
 		if len(os.Args) > 3 {
 			fmt.Sscan(os.Args[3], &rounds)
 		}
-		drive.RaceWork(seed, rounds)
+		ref := ""
+		if len(os.Args) > 4 {
+			ref = os.Args[4]
+		}
+		drive.RaceWork(seed, rounds, ref)
+	case "concref":
+		// one instance of the C14 catalogue alone in this fresh process
+		var seed int64 = 1
+		idx := 0
+		if len(os.Args) > 3 {
+			fmt.Sscan(os.Args[2], &seed)
+			fmt.Sscan(os.Args[3], &idx)
+		}
+		drive.ConcRef(seed, idx)
 	case "check":
 		if len(os.Args) < 3 {
 			usage()
